@@ -721,8 +721,17 @@ def _gen_world(rng, distinct):
     rng.shuffle(scores)
     coarse = [0.25, 0.5, 0.5, 0.75, 0.9]
 
+    near = [0]
+
     def score():
-        return scores.pop() / 256 if distinct else rng.choice(coarse)
+        if not distinct:
+            return rng.choice(coarse)
+        if rng.random() < 0.3:
+            # distinct but nearly equal confidences (1e-9 apart): a ranking that rounds or truncates its sort keys
+            # turns them into ties and becomes dependent on the insertion order
+            near[0] += 1
+            return 0.5 + near[0] * 1e-9
+        return scores.pop() / 256
 
     frames, ests = [], []
     for k in range(nf):
